@@ -1105,12 +1105,17 @@ func (ds *AnySource) ChangeGroupTrigger(turnon bool, gts *GroupTriggerState) err
 	if turnon {
 		changer = ds.broker.AddConnection
 	}
+	// Apply every connection that is valid, and report the first one that is not
+	// (e.g., a channel index outside the range of channels) instead of claiming success.
+	var firstErr error
 	for source, receivers := range gts.Connections {
 		for _, receiver := range receivers {
-			changer(source, receiver)
+			if err := changer(source, receiver); err != nil && firstErr == nil {
+				firstErr = err
+			}
 		}
 	}
-	return nil
+	return firstErr
 }
 
 // StopTriggerCoupling turns off all trigger coupling, including all group triggers and FB/Err coupling.
